@@ -160,12 +160,28 @@ def probe(w0, data, src=None):
     return kind, cookie, w.step_dh_calls, after != before, w
 
 
-PRE = {'established': False}
+PRE = {'established': False, 'initiated': 0}
 
 
 def fresh():
     """-> (world, genuine IKE_SA_INIT request of A).  With PRE['established'] the responder already holds an established
     IKE_SA with that very peer (address pair) - which says nothing about who sends the next cookie-less request"""
+    if PRE['initiated']:
+        # the responder has itself initiated (and closed again) some IKE_SAs before: that is no reason to count differently
+        req = variant(real_init_request(base_world()), spi=b'\x43' * 8)
+        w = base_world()
+        for _ in range(PRE['initiated']):
+            w.step(('acquire', 'B', 0, 0))
+            w.deliver_all()
+            b = w.endpoints['B']
+            idx = [i for i, x in enumerate(b.controller.ike_sas) if x.state == State.ESTABLISHED]
+            if not idx:
+                raise HarnessError('B could not establish as initiator')
+            w.step(('due', 'B', idx[0], 'delete_ike'))
+            w.deliver_all()
+        if w.endpoints['B'].controller.ike_sas or w.endpoints['A'].controller.ike_sas:
+            raise HarnessError('IKE_SAs left after B closed what it had initiated')
+        return w, req
     if not PRE['established']:
         w = base_world()
         return w, real_init_request(w)
@@ -178,9 +194,10 @@ def fresh():
     return w, req
 
 
-def responder_cases(same_spi=False, established=False):
+def responder_cases(same_spi=False, established=False, initiated=0):
     """yields (label, violations list, outcome)"""
     PRE['established'] = established
+    PRE['initiated'] = initiated
     try:
         yield from _responder_cases(same_spi)
     except Evicted as ex:
@@ -276,6 +293,15 @@ def _responder_cases(same_spi=False):
         yield must_refuse('truncated-cookie', variant(req, cookies=[good[:-1]]))
         yield must_refuse('extended-cookie', variant(req, cookies=[good + b'\0']))
         yield must_refuse('empty-cookie', variant(req, cookies=[b'']))
+        # cookies a stranger can compute: the right construction keyed with an empty / all-zero / guessable secret
+        import hashlib as _hl
+        import hmac as _hm
+        import ipaddress as _ip
+        h0 = F.parse_hdr(req)
+        nonce0 = [b for t, b in F.split_chain(h0['first'], req[28:]) if t == F.NONCE][0]
+        material = h0['spi_i'] + nonce0 + _ip.ip_address(SRC['a']).packed
+        for klab, key in (('empty', b''), ('zero-8', bytes(8)), ('zero-32', bytes(32)), ('zero-64', bytes(64)), ('spi', h0['spi_i'])):
+            yield must_refuse('cookie-keyed-with-%s-secret' % klab, variant(req, cookies=[_hm.new(key, material, _hl.sha256).digest()]))
         for ln in (1, 63, 64):       # any size RFC 7296 allows for a cookie, none of them the right one
             yield must_refuse('wrong-cookie-of-%d-octets' % ln, variant(req, cookies=[bytes([0x42]) * ln]))
         yield must_refuse('replayed-with-other-spi', variant(req, spi=b'\x66' * 8, cookies=[good]))
@@ -325,12 +351,20 @@ def need_third_peer(w):
 def initiator_cases():
     """COOKIE reply delivered once / twice / after the real reply; then the session runs to the end"""
     for mode in ('once', 'twice', 'after-real-reply', 'second-challenge', 'retry-lost', 'retry-lost:load-gone',
-                 'retry-answer-lost', 'invalid-ke-after-cookie'):
+                 'retry-answer-lost', 'invalid-ke-after-cookie', 'retry-lost:after-an-earlier-retransmission'):
         w = base_world() if mode != 'invalid-ke-after-cookie' else ke_mismatch_world()
         w.endpoints['B'].controller.cookie_threshold = -1 if mode != 'after-real-reply' else 10 ** 6
         w.step(('acquire', 'A', 0, 0))
         first = w.net[0]
         v = []
+        if mode.endswith('after-an-earlier-retransmission'):
+            # the cookie-less request had to be retransmitted once already (its first copy was lost) before the COOKIE came
+            w.step(('drop', first.id))
+            sa = w.endpoints['A'].controller.ike_sas[0]
+            w.step(('tick', max(0.0, sa.retransmit_at - w.clock) + 0.01))
+            if len(w.net) != 1 or w.net[0].data != first.data:
+                raise HarnessError('expected the retransmission of the first request')
+            first = w.net[0]
         if mode == 'after-real-reply':
             w.step(('deliver', first.id))               # normal response
             real = w.net[0]
@@ -462,10 +496,21 @@ def replay(path):
     FAMILY['v'] = fam
     SRC.update(a=S.IP_A if fam == 4 else V6['A'], b=S.IP_B if fam == 4 else V6['B'])
     OTHER['addr'] = S.IP_C if fam == 4 else V6['C']
+    if 'threshold-across-histories' in want:
+        meas = {}
+        for lab, kw in (('plain', {}), ('established-first', dict(established=True)), ('was-initiator-3x', dict(initiated=3))):
+            for l, v, o in responder_cases(**kw):
+                if 'threshold:measured=' in l:
+                    meas[lab] = int(l.rsplit('=', 1)[1])
+        print('measured thresholds:', meas)
+        bad = len(set(meas.values())) > 1
+        print('REPLAY %s' % ('reproduces a violation' if bad else 'does not reproduce'))
+        sys.exit(1 if bad else 0)
     same = 'same-spi-fill:' in want
     est = 'established-first:' in want
-    bare = want.split(':', 1)[1].replace('same-spi-fill:', '').replace('established-first:', '')
-    for label, v, outcome in list(responder_cases(same_spi=same, established=est)) + list(initiator_cases()) + list(foreign_responder_cases()):
+    ini = 3 if 'was-initiator-3x:' in want else 0
+    bare = want.split(':', 1)[1].replace('same-spi-fill:', '').replace('established-first:', '').replace('was-initiator-3x:', '')
+    for label, v, outcome in list(responder_cases(same_spi=same, established=est, initiated=ini)) + list(initiator_cases()) + list(foreign_responder_cases()):
         if label == bare:
             res += v
     for r in res:
@@ -490,6 +535,15 @@ def main():
         runs += [('v%d:%s' % (fam, l), v, o) for l, v, o in responder_cases()]
         runs += [('v%d:same-spi-fill:%s' % (fam, l), v, o) for l, v, o in responder_cases(same_spi=True) if 'threshold' in l or 'no-cookie' in l]
         runs += [('v%d:established-first:%s' % (fam, l), v, o) for l, v, o in responder_cases(established=True)]
+        runs += [('v%d:was-initiator-3x:%s' % (fam, l), v, o) for l, v, o in responder_cases(initiated=3)]
+        # how many half-open IKE_SAs it takes does not depend on what the daemon did before
+        meas = {}
+        for l, v, o in runs:
+            if l.startswith('v%d:' % fam) and 'threshold:measured=' in l:
+                meas[l.rsplit(':threshold:measured=', 1)[0]] = int(l.rsplit('=', 1)[1])
+        if len(set(meas.values())) > 1:
+            runs.append(('v%d:threshold-across-histories' % fam, [('threshold-depends-on-history', 'half-open IKE_SAs needed before a '
+                                                                   'cookie is demanded: %s' % sorted(meas.items()))], 'differs'))
         runs += [('v%d:%s' % (fam, l), v, o) for l, v, o in initiator_cases()]
         runs += [('v%d:%s' % (fam, l), v, o) for l, v, o in foreign_responder_cases()]
     FAMILY['v'] = 4
